@@ -90,7 +90,8 @@ def evaluate(case):
                 ("", name + ".rpm-macros", epoch, version, release, ".rpm"),
                 ("", name, epoch, version, release + ".rpmfusion", ".rpm"),
                 ("a/", name, 10 ** 10 + epoch, version, release, ""),
-                ("", name, 2 ** 64 + 12345678901 + epoch, version, release, ".rpm")):
+                ("", name, 2 ** 64 + 12345678901 + epoch, version, release, ".rpm"),
+                ("", name, 10 ** 1024 + epoch, version, release, ""), ("d/", name, 7 * 10 ** 2500 + 10 ** 1023 + epoch, version, release, ".rpm")):
             s2 = "%s%s-%d:%s-%s.%s%s" % (d_, n_, e_, v_, r_, arch, sfx)
             exp2 = {"name": n_, "epoch": e_, "version": v_, "release": r_, "arch": arch}
             try:
